@@ -172,7 +172,111 @@ def table_law(db, fi, loop, dom_factory, key_name, presets, table_names):
 
 
 # --------------------------------------------------------------------------
+ZERNIKE_REQUESTS = (
+    [(2, 2), (2, -2), (4, 2), (3, 1), (5, 5), (4, 0)],                       # gaps in |m|, both signs, m = 0 last
+    [(0, 0), (1, 1), (1, -1), (2, 0), (2, 2), (2, -2), (3, 1), (3, -1)],     # the dense low-order set
+    [(5, 5)],                                                                # one request, highest |m| only
+    [(3, 3), (3, 1), (2, 0), (6, -4), (6, -4), (8, 2)],                      # unsorted, duplicated, skipped radial orders
+)
+
+
+def zernike_requests_rules(run, db, rule='C08.table2'):
+    """zernike_nm_seq decided for fixed request lists and symbolic coordinates: the function is interpreted with the requests as
+    concrete integers (its bookkeeping -- tables per |m|, running indices -- is executed exactly) and r, t as symbols, jacobi /
+    jacobi_seq summarised as the Jacobi polynomial of their arguments; slot i must equal what zernike_nm returns for request i,
+    with and without normalisation.  Bounded (these request lists), but independent of how the function is organised."""
+    from .common import norm_interp
+    Z = P + 'zernike.'
+    f, one = db.func(Z + 'zernike_nm_seq'), db.func(Z + 'zernike_nm')
+
+    class Out(Value):
+        def __init__(self):
+            self.rows = {}
+
+    def mk_interp():
+        it, dom = norm_interp(db)
+        oe, os_, op_ = dom.call_ext, dom.store_subscript, dom.call_prysm
+
+        def call_ext(dotted, args, kwargs, node):
+            if dotted in ('numpy.empty', 'numpy.zeros', 'numpy.empty_like', 'numpy.zeros_like'):
+                return Out()
+            if dotted in ('numpy.stack', 'numpy.array', 'numpy.asarray') and args and isinstance(args[0], Tup) and args[0].items and all(dom.rat(x) is not None for x in args[0].items) \
+                    and not all(isinstance(x, Const) for x in args[0].items):
+                o = Out()
+                o.rows = {k: [v] for k, v in enumerate(args[0].items)}
+                return o
+            return oe(dotted, args, kwargs, node)
+
+        def store_subscript(target, idx, val, node):
+            if isinstance(target, Out):
+                if isinstance(idx, Const) and isinstance(idx.v, int):
+                    target.rows.setdefault(idx.v, []).append(val)
+                    return True
+                raise AnalysisError('zernike_nm_seq: a mode is stored at a slot that is not followed (%r)' % (idx,))
+            return os_(target, idx, val, node)
+
+        def call_prysm(fi, args, kwargs, node):
+            if fi.name == 'jacobi_seq' and fi.module.name.endswith('jacobi'):
+                b = bind_call(fi, args, kwargs)
+                ns = it.iterate(b.get('ns'), node)
+                if ns is None:
+                    return Unknown('jacobi_seq over orders that are not followed')
+                return Tup([dom.func_atom('Jacobi', [n_, b.get('alpha'), b.get('beta'), b.get('x')]) for n_ in ns], 'list')
+            if fi.name == 'jacobi' and fi.module.name.endswith('jacobi'):
+                b = bind_call(fi, args, kwargs)
+                return dom.func_atom('Jacobi', [b.get('n'), b.get('alpha'), b.get('beta'), b.get('x')])
+            return op_(fi, args, kwargs, node) if op_ else None
+        dom.call_ext, dom.store_subscript, dom.call_prysm = call_ext, store_subscript, call_prysm
+        return it, dom
+    from .common import bind_call
+    n_ok = 0
+    for reqs in ZERNIKE_REQUESTS:
+        for norm in (True, False):
+            it, dom = mk_interp()
+            res = [q for q in it.run(f, kwargs=lambda: {f.params[0]: Tup([Tup([Const(a), Const(b)]) for a, b in reqs], 'list'), 'r': dom.sym('r'), 't': dom.sym('t'), 'norm': Const(norm)})
+                   if q.outcome == 'return']
+            if len(res) != 1:
+                raise AnalysisError('zernike_nm_seq%s: expected one path for concrete requests, got %d' % (reqs, len(res)))
+            out = res[0].value
+            if isinstance(out, Tup):
+                rows = {k: [v] for k, v in enumerate(out.items)}
+            elif isinstance(out, Out):
+                rows = out.rows
+            else:
+                raise AnalysisError('zernike_nm_seq%s: the returned array is not followed (%r)' % (reqs, out))
+            bad = []
+            for k, (n_, m_) in enumerate(reqs):
+                ref = [q for q in it.run(one, kwargs=lambda: {'n': Const(n_), 'm': Const(m_), 'r': dom.sym('r'), 't': dom.sym('t'), 'norm': Const(norm)}) if q.outcome == 'return']
+                if len(ref) != 1 or dom.rat(ref[0].value) is None:
+                    raise AnalysisError('zernike_nm(%d, %d): reference value is not followed' % (n_, m_))
+                want = dom.rat(ref[0].value)
+                got = [dom.rat(v) for v in rows.get(k, [])]
+                if len(got) != 1 or got[0] is None:
+                    bad.append('slot %d (request (%d, %d)) is written %d times%s' % (k, n_, m_, len(got), '' if got else ' -- the mode is missing'))
+                elif not (got[0] == want):
+                    bad.append('slot %d holds %s, zernike_nm(%d, %d) is %s' % (k, got[0].key()[:120], n_, m_, want.key()[:120]))
+            extra = sorted(set(rows) - set(range(len(reqs))))
+            if extra:
+                bad.append('slots %s beyond the requests are written' % extra)
+            n_ok += 1
+            run.check(not bad, rule, f.qual, 'requests %s norm=%s' % (reqs, norm), 'slot i of zernike_nm_seq(%s) equals zernike_nm of request i (norm=%s)' % (reqs, norm),
+                      'zernike_nm_seq(%s, norm=%s): %s' % (reqs, norm, '; '.join(bad[:3])), f.loc())
+    return n_ok
+
+
 def zernike_rules(run, db, rule='C08.table2'):
+    """the general (symbolic request) decision when the function has the table-building shape it knows; the fixed-request decision
+    always, and alone when it has another shape."""
+    decided = zernike_requests_rules(run, db, rule)
+    try:
+        _zernike_table_rules(run, db, rule)
+    except AnalysisError:
+        if not decided:
+            raise
+        run.info('zernike_nm_seq: the table-law decision does not apply to this organisation of the function; decided for %d fixed request lists' % decided) if hasattr(run, 'info') else None
+
+
+def _zernike_table_rules(run, db, rule='C08.table2'):
     from ..core.pattern import match_all
     Z = P + 'zernike.'
     f = db.func(Z + 'zernike_nm_seq')
